@@ -165,6 +165,53 @@ def symbolic_cases(tier):
         for k in (-1, 0, 0x10000, 0x3fffff, 0x400000):
             yield mk_sym(m, V(k))
 
+def computed_cases(tier):
+    """the value operand is not written but COMPUTED: through a `.set` symbol captured from `pc` behind some
+    code, and through a macro argument that is an expression whose grouping matters (a-(b-c), x/(y/z)); values at
+    and just beyond the range ends.  What is checked is the value the expression denotes, wherever it is written."""
+    PRE_SRC, PRE_HEX, PRE_WORDS = 'nop\nlds r0, 0x100\n', '0000' + '0090' + '0001', 3
+    fams = []
+    edge8 = [-129, -128, 0, 255, 256]
+    for m in E.IMM: fams += [(m, (R(17), None), k) for k in edge8]
+    for m in ('adiw', 'sbiw'): fams += [(m, (R(26), None), k) for k in (-1, 0, 63, 64)]
+    for k in (-1, 0, 65535, 65536): fams += [('lds', (R(5), None), k), ('sts', (None, R(5)), k)]
+    for a in (-1, 0, 63, 64): fams += [('in', (R(5), None), a), ('out', (None, R(5)), a)]
+    for m in E.REGBIT: fams += [(m, (R(5), None), b) for b in (-1, 0, 7, 8)]
+    for m in E.IOBIT:
+        fams += [(m, (None, V(3)), a) for a in (-1, 0, 31, 32)] + [(m, (V(5), None), b) for b in (-1, 0, 7, 8)]
+    for m in ('bset', 'bclr'): fams += [(m, (None,), b) for b in (-1, 0, 7, 8)]
+    for m in ('jmp', 'call'): fams += [(m, (None,), k) for k in (-1, 0, 0x3fffff, 0x400000)]
+    rel = [(m, (None,), d) for m in ('rjmp', 'rcall') for d in (-2049, -2048, 2047, 2048)] + \
+          [('br' + b, (None,), d) for b in E.BRANCHES[:6] for d in (-65, -64, 63, 64)] + [(m, (V(3), None), d) for m in ('brbs', 'brbc') for d in (-65, -64, 63, 64)]
+    def build(m, shape, v, vtext, pre_src, addr, prefix):
+        ops = [(vtext, 'v%d' % v) if o is None else o for o in shape]
+        c = E.mk(m, *ops, addr=addr)
+        c.src = pre_src + c.src
+        c.prefix = prefix
+        return c
+    for m, shape, v in fams + rel:
+        isrel = (m, shape, v) in rel
+        # (a) .set captured from pc, behind three words of code
+        val = v if not isrel else PRE_WORDS + 1 + v
+        n = val - PRE_WORDS
+        yield build(m, shape, val, 'c04q', PRE_SRC + '.set c04q = %s\n' % ('pc+%d' % n if n >= 0 else 'pc-%d' % -n), PRE_WORDS, PRE_HEX)
+        # (b) macro argument a-(b-c) / x/(y/z): the macro body holds the instruction, the value comes in as @0
+        val = v if not isrel else 1 + v
+        texts = ['%d-(10-4)' % (val + 6)] if val >= -6 else ['0-(%d-1)' % (1 - val)]
+        if val >= 0: texts.append('%d/(20/10)' % (2 * val))
+        if val >= 0 and val % 4 == 0: texts.append('%d>>(4>>1)' % (val * 4))
+        for t in texts:
+            ops = [('@0', 'v%d' % val) if o is None else o for o in shape]
+            c = E.mk(m, *ops)
+            c.src = '.macro c04m\n' + c.src + '\n.endm\nc04m ' + t
+            yield c
+    # index displacement through a macro argument
+    for q in (-1, 0, 63, 64):
+        for m, ops in (('ldd', [R(16), ('Y+(@0)', 'iY+q%d' % q)]), ('std', [('Z+(@0)', 'iZ+q%d' % q), R(16)])):
+            c = E.mk(m, *ops)
+            c.src = '.macro c04m\n' + c.src + '\n.endm\nc04m ' + ('%d-(10-4)' % (q + 6))
+            yield c
+
 SHAPES = {}
 for m in E.RR + ['muls', 'movw'] + E.MULF: SHAPES[m] = 'rr'
 for m in E.SAME + E.ONE + ['ser']: SHAPES[m] = 'r'
@@ -198,7 +245,7 @@ def judge_device(cases, vio):
     return [v for v in vio if not (v['source'].startswith('.device') and v['what'].startswith('valid instruction') and v['impl'].startswith('ERR'))]
 
 def run(tier, seed, model_ok):
-    cases = list(window_cases(tier)) + list(wrap_cases(tier)) + list(confusion_cases(tier)) + list(symbolic_cases(tier))
+    cases = list(window_cases(tier)) + list(wrap_cases(tier)) + list(confusion_cases(tier)) + list(symbolic_cases(tier)) + list(computed_cases(tier))
     dis, vio = E.run_enc(cases, model_ok, 'C04')
     vio = judge_device(cases, vio)
     import subprocess
@@ -206,7 +253,7 @@ def run(tier, seed, model_ok):
     illegal = None
     return {
         'evaluations': len(cases), 'distinct_nontrivial': len({c.src for c in cases}),
-        'rule': 'every mnemonic x all registers 0..31 in each register position x every value in [lo-130, hi+130] of each value field (plus the byte-wrap zone 250..330, i64 extremes, and for every value field the values that come into range only after truncation to 8, 16 or 32 bits: v ± 2^w, v + 2·2^w), all index forms incl. X/Y/Z displacements in the window; every mnemonic x every list of 0..3 operands over the kinds register/value/index (kind and count confusions), default core and ATtiny20; the register/value families again with every register written through a .def alias (all 32 in each position) and values through .equ symbols / compound expressions at the range ends; distinct = distinct source texts',
+        'rule': 'every mnemonic x all registers 0..31 in each register position x every value in [lo-130, hi+130] of each value field (plus the byte-wrap zone 250..330, i64 extremes, and for every value field the values that come into range only after truncation to 8, 16 or 32 bits: v ± 2^w, v + 2·2^w), all index forms incl. X/Y/Z displacements in the window; every mnemonic x every list of 0..3 operands over the kinds register/value/index (kind and count confusions), default core and ATtiny20; the register/value families again with every register written through a .def alias (all 32 in each position) and values through .equ symbols / compound expressions at the range ends; the value families once more with the value computed (a .set symbol captured from pc behind code; a macro argument whose grouping matters: a-(b-c), x/(y/z), x>>(y>>z)); distinct = distinct source texts',
         'samples': [cases[0].src, cases[len(cases) // 3].src, cases[-1].src],
         'exhaustive': True,
         'distribution': {'cases_per_mnemonic_top': dist.most_common(10), 'mnemonics': len(dist)},
